@@ -190,14 +190,30 @@ def file_as_update(op):
     return ("U", nids, fwt, fwv, bytes(data))
 
 
+_FW_DIR = []
+
+
+def fw_path_of(gw):
+    """the path this gateway's user keeps the firmware file at: the same string for every update of one gateway
+    (a sketch rebuilt to the same output path), a different one per gateway"""
+    import atexit
+    import shutil
+    if not _FW_DIR:
+        _FW_DIR.append(tempfile.mkdtemp(prefix="verif-fw-"))
+        atexit.register(shutil.rmtree, _FW_DIR[0], True)
+    if "_verif_fw_path" not in gw.__dict__:
+        gw.__dict__["_verif_fw_path"] = os.path.join(_FW_DIR[0], f"fw-{len(os.listdir(_FW_DIR[0]))}-{id(gw):x}", "firmware.hex")
+        os.makedirs(os.path.dirname(gw.__dict__["_verif_fw_path"]))
+    return gw.__dict__["_verif_fw_path"]
+
+
 def real_update_file(gw, nids, fwt, fwv, text):
     """Gateway.update_fw with a firmware file of this content (None: a path that does not exist)."""
     import asyncio
-    fd, path = tempfile.mkstemp(prefix="verif-fw-", suffix=".hex")
-    with os.fdopen(fd, "w", encoding="utf-8", newline="") as fh:
-        fh.write(text or "")
-    if text is None:
-        os.unlink(path)
+    path = fw_path_of(gw)
+    if text is not None:
+        with open(path, "w", encoding="utf-8", newline="") as fh:
+            fh.write(text)
     try:
         if asyncio.iscoroutinefunction(gw.update_fw):
             loop = asyncio.new_event_loop()
@@ -225,8 +241,8 @@ def real_update_fw(gw, nids, fwt, fwv, image):
             return
         # an image of no bytes is a syntactically valid file without data (just the end-of-file record):
         # update_fw must treat it as "no firmware" and do nothing
-        fd, path = tempfile.mkstemp(prefix="verif-fw-", suffix=".hex")
-        with os.fdopen(fd, "w", encoding="utf-8", newline="") as fh:
+        path = fw_path_of(gw)
+        with open(path, "w", encoding="utf-8", newline="") as fh:
             fh.write(fw_file_text(image))
     try:
         if asyncio.iscoroutinefunction(gw.update_fw):
